@@ -25,9 +25,13 @@ def verify (prev : G) : List (Rec G F) → Bool
   | r :: rs => decide (r.I = prev) && decide (r.I = g.add r.O r.D)
       && decide (r.D = computedDiscard g s r.rm r.ad) && verify r.O rs
 
-/-- a request the tree can make of a version with these files -/
+/-- a request the tree can make of a version with these files: the removed files are live, the added
+    ones are distinct and not live — unless the request removes them too: a compaction that
+    reproduces one of its inputs writes an edit that removes and adds the same digest
+    (tree/mod.rs `compaction_finish`, "Sometimes compaction generates the same file as input and
+    output") -/
 def ValidReq (files : List F) (req : List F × List F) : Prop :=
-  req.1.Nodup ∧ (∀ f ∈ req.1, f ∈ files) ∧ req.2.Nodup ∧ (∀ f ∈ req.2, f ∉ files)
+  req.1.Nodup ∧ (∀ f ∈ req.1, f ∈ files) ∧ req.2.Nodup ∧ (∀ f ∈ req.2, f ∈ files → f ∈ req.1)
 
 def ledger : List F → List (List F × List F) → List (Rec G F)
   | _, [] => []
@@ -42,17 +46,21 @@ def ValidReqs : List F → List (List F × List F) → Prop
   | files, req :: reqs => ValidReq files req ∧ ValidReqs (applyTx files req.1 req.2) reqs
 
 theorem applyTx_nodup {files rm ad : List F} (hnd : files.Nodup) (had : ad.Nodup)
-    (hnew : ∀ f ∈ ad, f ∉ files) : (applyTx files rm ad).Nodup := by
+    (hnew : ∀ f ∈ ad, f ∈ files → f ∈ rm) : (applyTx files rm ad).Nodup := by
   unfold applyTx
   rw [List.nodup_append]
   refine ⟨hnd.filter _, had, ?_⟩
   intro a ha b hb hab
   subst hab
-  exact hnew a hb (List.mem_filter.mp ha).1
+  have := List.mem_filter.mp ha
+  have h2 := hnew a hb this.1
+  simp [h2] at this
 
-/-- **C04** `verifier_accepts`: every chain of transactions the store writes — ingests, moves,
-    compactions, garbage collections, in any order — passes the verifier, and the last recorded
-    output is the sum over the files of the final version -/
+/-- **C04** `verifier_accepts`: every chain of valid requests — ingests, compactions, garbage
+    collections, in any order (a trivial move writes no edit), with `D` taken as Σ removed − Σ added
+    (that the store's `discard_setsum`, computed from the dropped entries, is that:
+    `Blue.VerifyOne.opDiscard_eq`) — passes the verifier's chain / balance / discard checks; that the
+    last recorded output is the sum over the files of the final version is `last_output` -/
 theorem verifier_accepts : ∀ (reqs : List (List F × List F)) (files : List F), files.Nodup →
     ValidReqs files reqs →
     verify g s (total g s files) (ledger g s files reqs) = true
@@ -112,6 +120,37 @@ theorem tamper_discard_rejected (prev : G) (a b : List (Rec G F)) (r : Rec G F) 
   intro h
   simp only at h
   exact hne (add_left_cancel g (h.symm.trans hp.1.1.2))
+
+/-- **C04** the last recorded output is the sum over the files of the final version -/
+theorem last_output : ∀ (reqs : List (List F × List F)) (files : List F), files.Nodup →
+    ValidReqs files reqs → reqs ≠ [] →
+    ((ledger g s files reqs).getLast?.map (·.O)) = some (total g s (finalFiles files reqs))
+  | [], _, _, _, h => absurd rfl h
+  | [req], files, hnd, hv, _ => by
+    obtain ⟨⟨h1, h2, _, _⟩, _⟩ := hv
+    obtain ⟨_, hout⟩ := tx_balances g s files req.1 req.2 hnd h1 h2
+    simp [ledger, finalFiles, storeRec, hout]
+  | req :: r2 :: reqs, files, hnd, hv, _ => by
+    obtain ⟨⟨_, _, h3, h4⟩, hrest⟩ := hv
+    have ih := last_output (r2 :: reqs) _ (applyTx_nodup hnd h3 h4) hrest (by simp)
+    simpa [ledger, finalFiles] using ih
+
+/-- **C04** rejection, recorded input digest -/
+theorem tamper_input_rejected (prev : G) (a b : List (Rec G F)) (r : Rec G F) (i' : G)
+    (hv : verify g s prev (a ++ r :: b) = true) (hne : i' ≠ r.I) :
+    verify g s prev (a ++ { r with I := i' } :: b) = false := by
+  obtain ⟨p, hp⟩ := verify_append g s prev a r b hv
+  simp only [Bool.and_eq_true, decide_eq_true_eq] at hp
+  apply verify_append_fail
+  intro h
+  simp only at h
+  exact hne (h.trans hp.1.1.2.symm)
+
+theorem verify_fail_D (prev : G) : ∀ (a : List (Rec G F)) (r : Rec G F) (b : List (Rec G F)),
+    decide (r.D = computedDiscard g s r.rm r.ad) = false → verify g s prev (a ++ r :: b) = false
+  | [], r, b, h => by simp only [List.nil_append, verify]; rw [h]; simp
+  | x :: a, r, b, h => by
+    simp only [List.cons_append, verify]; rw [verify_fail_D x.O a r b h]; simp
 
 /-- the sum over a duplicate-free list when one file's setsum changes -/
 theorem total_change (s' : F → G) (f : F) (hs : ∀ x, x ≠ f → s' x = s x) :
@@ -178,6 +217,52 @@ theorem tamper_file_rejected (prev : G) (a b : List (Rec G F)) (r : Rec G F) (s'
   rw [← h2] at h3
   exact hf (add_left_cancel g h3).symm
 
+/-- the same for a file the transaction REMOVES (an input of a compaction or collection) -/
+theorem tamper_removed_file_discard_fails (prev : G) (a b : List (Rec G F)) (r : Rec G F) (s' : F → G) (f : F)
+    (hok : verify g s prev (a ++ r :: b) = true)
+    (hs : ∀ x, x ≠ f → s' x = s x) (hf : s' f ≠ s f)
+    (hrmnd : r.rm.Nodup) (hin : f ∈ r.rm) (had : f ∉ r.ad) :
+    decide (r.D = computedDiscard g s' r.rm r.ad) = false := by
+  obtain ⟨p, hp⟩ := verify_append g s prev a r b hok
+  simp only [Bool.and_eq_true, decide_eq_true_eq] at hp
+  rw [decide_eq_false_iff_not]
+  intro h
+  have hD := hp.1.2
+  rw [hD] at h
+  unfold computedDiscard Grp.sub at h
+  have hadSame : total g s' r.ad = total g s r.ad := by
+    have : ∀ (l : List F), f ∉ l → total g s' l = total g s l := by
+      intro l
+      induction l with
+      | nil => intro _; rfl
+      | cons y l ih =>
+        intro hy
+        simp only [List.mem_cons, not_or] at hy
+        rw [total_cons, total_cons, ih hy.2, hs y (Ne.symm hy.1)]
+    exact this _ had
+  rw [hadSame] at h
+  have h2 : total g s r.rm = total g s' r.rm := add_right_cancel g h
+  have h3 := total_change g s s' f hs r.rm hrmnd hin
+  rw [← h2] at h3
+  exact hf (add_left_cancel g h3).symm
+
+/-- **C04** rejection, file contents, in full: one altered setsum of a file a transaction adds (and
+    does not remove) makes the verifier, recomputing from the files, reject the ledger -/
+theorem tamper_added_file_rejected (prev : G) (a b : List (Rec G F)) (r : Rec G F) (s' : F → G) (f : F)
+    (hok : verify g s prev (a ++ r :: b) = true)
+    (hs : ∀ x, x ≠ f → s' x = s x) (hf : s' f ≠ s f)
+    (had : r.ad.Nodup) (hin : f ∈ r.ad) (hrm : f ∉ r.rm) :
+    verify g s' prev (a ++ r :: b) = false :=
+  verify_fail_D g s' prev a r b (tamper_file_rejected g s prev a b r s' f hok hs hf had hin hrm)
+
+/-- … or removes (and does not add) -/
+theorem tamper_removed_file_rejected (prev : G) (a b : List (Rec G F)) (r : Rec G F) (s' : F → G) (f : F)
+    (hok : verify g s prev (a ++ r :: b) = true)
+    (hs : ∀ x, x ≠ f → s' x = s x) (hf : s' f ≠ s f)
+    (hrmnd : r.rm.Nodup) (hin : f ∈ r.rm) (had : f ∉ r.ad) :
+    verify g s' prev (a ++ r :: b) = false :=
+  verify_fail_D g s' prev a r b (tamper_removed_file_discard_fails g s prev a b r s' f hok hs hf hrmnd hin had)
+
 /-- non-vacuity on the integers: ingest files 1 and 2, compact them into file 3 discarding 1 unit -/
 def intGrp : Grp Int := ⟨(· + ·), (- ·), 0, Int.add_comm, Int.add_assoc, Int.add_zero, Int.add_right_neg⟩
 
@@ -190,8 +275,24 @@ example : verify intGrp exS 0 (ledger intGrp exS [] exReqs) = true
 example : ValidReqs [] exReqs := by
   simp [ValidReqs, ValidReq, exReqs, applyTx]
 
+/-- a compaction that reproduces one of its inputs: files 1 and 2 go in, file 2 (again) and file 3
+    come out; the edit removes and adds the digest of file 2; the request is valid, the ledger
+    verifies, and the last output is the sum over the final files `[2, 3]` -/
+def exReadd : List (List Nat × List Nat) := [([], [1]), ([], [2]), ([1, 2], [2, 3])]
+
+example : ValidReqs [] exReadd := by
+  simp [ValidReqs, ValidReq, exReadd, applyTx]
+
+example : verify intGrp exS 0 (ledger intGrp exS [] exReadd) = true
+    ∧ finalFiles [] exReadd = [2, 3]
+    ∧ ((ledger intGrp exS [] exReadd).getLast?.map (·.O)) = some (total intGrp exS [2, 3]) := by decide
+
 end Blue.Books
 
 #print axioms Blue.Books.verifier_accepts
 #print axioms Blue.Books.tamper_output_rejected
 #print axioms Blue.Books.tamper_file_rejected
+#print axioms Blue.Books.last_output
+#print axioms Blue.Books.tamper_input_rejected
+#print axioms Blue.Books.tamper_added_file_rejected
+#print axioms Blue.Books.tamper_removed_file_rejected
